@@ -150,9 +150,7 @@ struct SnakecaseFn {
 impl FunctionExpression for SnakecaseFn {
     fn resolve(&self, ctx: &mut Context) -> Resolved {
         let value = self.value.resolve(ctx)?;
-        let string_value = value
-            .try_bytes_utf8_lossy()
-            .expect("can't convert to string");
+        let string_value = value.try_bytes_utf8_lossy()?;
 
         match &self.excluded_boundaries {
             Some(boundaries) if !boundaries.is_empty() => {
